@@ -29,7 +29,7 @@ const (
 
 func init() {
 	register("C11", "proof", "T8/normalised AST shape (quorum formula), T4 GuardedBy (bound and wrap checks on every returning path), T15 ConstRelation (go/constant + types.Sizes), T6 WhoMayWrite, T7 Pairing, NormLinCmp",
-		"Shape obligations, all of which must discharge: (1) Validators.Quorum returns ((T*2)/3)+1 with T = TotalWeight() = cache.totalWeight, multiplication before division (evaluation order fixes the floor), over an unsigned type at least as wide as Weight; (2) every returning path of calcCaches has taken the edge totalWeight <= K (one constant K, read from the code with go/constant) after the last write of the total, and every accumulation total += w is followed, before the next iteration or a return, by the edge snapshot <= total of the wrap check (unsigned a+b wraps iff the result is below a), so the cached total is the true sum; the accumulated value is the same expression that is stored as weights[i] in the same iteration, and GetWeightByIdx reads weights[i]; (3) T15: Weight is unsigned, 2*K <= max(type of T*2) and floor(2K/3)+1 <= max(Weight), so T*2 cannot overflow and the quorum is representable; (4) T6: the fields of Validators, cache and WeightCounter are written only by the frozen owners (calcCaches on its fresh local cache, newValidators, DecodeRLP by whole-struct replacement, newWeightCounter, CountByIdx), module-wide for composite literals and whole-struct stores; (5) CountByIdx adds GetWeightByIdx(i) to sum only on the edge already[i] == false and pairs it with already[i] = true for the same i; the counter starts with sum 0 and a fresh all-false slice; Count is CountByIdx(validators.GetIdx(v)); (6) HasQuorum normalises to sum >= quorum and quorum is written once, from Quorum() of the very validator set stored in the counter. "+
+		"Shape obligations, all of which must discharge: (1) Validators.Quorum returns ((T*2)/3)+1 with T = TotalWeight() = cache.totalWeight, multiplication before division (evaluation order fixes the floor), over an unsigned type at least as wide as Weight; (2) every returning path of calcCaches has taken the edge totalWeight <= K (one constant K, read from the code with go/constant) after the last write of the total, and every accumulation total += w is followed, before the next iteration or a return, by the edge snapshot <= total of the wrap check (unsigned a+b wraps iff the result is below a), so the cached total is the true sum; the accumulated value is the value stored as weights[i] in the same iteration (the same expression, the same field of the iteration's element however the element is spelled, or weights[i] itself read back) of a loop whose index is advanced by the loop header only (range or counted by one), and GetWeightByIdx reads weights[i]; intermediate values may sit in single-definition locals throughout; (3) T15: Weight is unsigned, 2*K <= max(type of T*2) and floor(2K/3)+1 <= max(Weight), so T*2 cannot overflow and the quorum is representable; (4) T6: the fields of Validators, cache and WeightCounter are written only by the frozen owners (calcCaches on its fresh local cache, newValidators, DecodeRLP by whole-struct replacement, newWeightCounter, CountByIdx), module-wide for composite literals and whole-struct stores; a constructor's single stores x.f = e through the fresh, non-escaping local x that holds its one allocation count as that allocation (same meaning as the literal T{f: e}); (5) CountByIdx adds GetWeightByIdx(i) to sum only on the edge already[i] == false and pairs it with already[i] = true for the same i; the counter starts with sum 0 and a fresh all-false slice; Count is CountByIdx(validators.GetIdx(v)); (6) HasQuorum normalises to sum >= quorum and quorum is written once, from Quorum() of the very validator set stored in the counter. "+
 			"Trusted elementary lemma: for integers 1 <= T <= K and Q = floor(2T/3)+1: (a) T >= Q, since floor(2T/3) <= T-1 for T >= 1; (b) S <= 2T/3 implies S <= floor(2T/3) < Q; (c) S1,S2 >= Q implies S1,S2 > 2T/3, so the shared weight S1+S2-T > 4T/3-T = T/3; by (5) the counter's sum is a sum of weights[i] over distinct i, hence <= T <= K and never wraps, and by (6) a quorum is reported exactly when sum >= Q. Together with (1)-(4) this is the statement for every non-empty set with total <= K. Not decided: nothing of the statement beyond the lemma; behaviour for an empty set (T = 0, Q = 1) and for Count of an unknown validator ID (GetIdx yields index 0) is outside the quantifier.",
 		[]string{"the elementary lemma stated in the explanation", "Go unsigned integer arithmetic is modulo 2^n (language spec)", "sets are non-empty; Count is called with member IDs only"},
 		runC11)
@@ -165,6 +165,11 @@ var c11ValidatorOwners = []c11Owner{
 	{c11V + ".DecodeRLP", "whole:" + c11V, "replaces the receiver by a freshly built set"},
 }
 
+// c11MinValidatorWriters guards the writer enumeration against matching nothing. It is one less than the
+// table: the row lit:cache has an equivalent spelling without a literal (var c cache; c.ids = ...), all
+// other rows are found under every spelling (field stores of a constructor are attributed to lit:T).
+var c11MinValidatorWriters = len(c11ValidatorOwners) - 1
+
 var c11CounterOwners = []c11Owner{
 	{c11Pkg + ".newWeightCounter", "lit:" + c11WC, "the only constructor of a counter"},
 	{c11WC + ".CountByIdx", c11WC + ".sum", "adds a validator's weight when first counted"},
@@ -207,9 +212,35 @@ func c11Writers(c *core.Ctx, watchedFields []string, watchedTypes []string, owne
 			order = append(order, k)
 		}
 	}
+	chain0 := func(ch []string) string {
+		if len(ch) == 0 {
+			return ""
+		}
+		return ch[0]
+	}
 	for _, f := range p.Funcs() {
+		objs := map[string]*c11Object{}
+		constructed := func(tn string) *c11Object {
+			if o, ok := objs[tn]; ok {
+				return o
+			}
+			o := c11Constructed(f, tn)
+			objs[tn] = o
+			return o
+		}
 		for _, st := range c11Stores(f) {
 			root, chain := c11Chain(f, st.Target)
+			// construction: a constructor that fills its one object field by field through the fresh local
+			// holding it (x := &T{}; x.a = ...) does what the literal T{a: ...} does; such a store is
+			// attributed to the allocation ("lit:T"), whichever spelling is used
+			if _, listed := own[f.Name+"|"+chain0(chain)]; st.Kind == "assign" && len(chain) == 1 && isWF[chain[0]] && !listed {
+				if i := strings.LastIndex(chain[0], "."); i > 0 && isWT[chain[0][:i]] {
+					if o := constructed(chain[0][:i]); o != nil && o.Var != nil && varOf(f, root) == o.Var && o.Stores[ast.Unparen(st.Target)] {
+						add(f, "lit:"+chain[0][:i], "construction", st.Pos)
+						continue
+					}
+				}
+			}
 			viaWatched := false
 			for _, fld := range chain {
 				if isWF[fld] {
@@ -222,13 +253,18 @@ func c11Writers(c *core.Ctx, watchedFields []string, watchedTypes []string, owne
 			if st.Kind == "assign" && !viaWatched {
 				if tv, ok := f.Info().Types[st.Target]; ok {
 					if _, isPtr := tv.Type.(*types.Pointer); !isPtr && isWT[c11NamedOf(tv.Type)] {
-						if _, plain := ast.Unparen(st.Target).(*ast.Ident); !plain {
-							add(f, "whole:"+c11NamedOf(tv.Type), st.Kind, st.Pos)
+						if _, plain := ast.Unparen(st.Target).(*ast.Ident); plain {
+							continue
 						}
+						// a by-value field of an object that is still under construction in f (a fresh local
+						// that only leaves f by being returned) is that object's own memory
+						if sel, isSel := ast.Unparen(st.Target).(*ast.SelectorExpr); isSel && len(chain) == 1 && c11FreshLocal(f, varOf(f, sel.X)) {
+							continue
+						}
+						add(f, "whole:"+c11NamedOf(tv.Type), st.Kind, st.Pos)
 					}
 				}
 			}
-			_ = root
 		}
 		f.InspectOwn(func(n ast.Node) bool {
 			if lit, ok := n.(*ast.CompositeLit); ok {
@@ -384,6 +420,181 @@ func c11SingleDef(f *core.FuncInfo, v *types.Var) ast.Expr {
 		return nil
 	}
 	return as[0].RHS
+}
+
+// c11Iter is the spelling-independent view of "for every element of a collection" used by C11 and C12:
+// a range loop, or a loop counted from 0 in steps of 1 up to len(C), with single-definition locals
+// looked through (xs := C; n := len(xs); for i := 0; i < n; i++ { v := xs[i] ... }). The index and value
+// variables are bound by the loop header only, so the index is distinct in every iteration and an element
+// expression denotes the element of the current iteration.
+type c11Iter struct {
+	*core.Iteration
+	f *core.FuncInfo
+}
+
+func c11Resolver(f *core.FuncInfo) func(ast.Expr) ast.Expr {
+	return func(e ast.Expr) ast.Expr { return resolveLocal(f, e) }
+}
+
+// c11HeaderBound: every assignment of v in f (nested literals included) belongs to the loop header
+// (the range clause, or the init/post clause of a counted loop).
+func c11HeaderBound(f *core.FuncInfo, loop ast.Stmt, v *types.Var) bool {
+	if v == nil {
+		return true
+	}
+	for _, a := range assignsToVar(f, v) {
+		switch s := loop.(type) {
+		case *ast.RangeStmt:
+			if a.Stmt != ast.Node(s) {
+				return false
+			}
+		case *ast.ForStmt:
+			if (s.Init == nil || a.Stmt != ast.Node(s.Init)) && (s.Post == nil || a.Stmt != ast.Node(s.Post)) {
+				return false
+			}
+		default:
+			return false
+		}
+	}
+	for _, l := range allLits(f) {
+		if len(assignsToVar(l, v)) > 0 {
+			return false
+		}
+	}
+	return true
+}
+
+// c11Iterations lists the loops of f's own body that are iterations starting at the first element whose
+// collection (nil for a counted loop whose bound is not len of something) satisfies pred.
+func c11Iterations(f *core.FuncInfo, pred func(coll ast.Expr) bool) []*c11Iter {
+	var out []*c11Iter
+	f.InspectOwn(func(n ast.Node) bool {
+		var loop ast.Stmt
+		switch s := n.(type) {
+		case *ast.RangeStmt:
+			loop = s
+		case *ast.ForStmt:
+			loop = s
+		default:
+			return true
+		}
+		it, ok := core.IterationOf(f, loop, c11Resolver(f))
+		if !ok || !it.FromZero || !pred(it.Coll) {
+			return true
+		}
+		if !c11HeaderBound(f, loop, it.Index) || !c11HeaderBound(f, loop, it.Value) {
+			return true
+		}
+		out = append(out, &c11Iter{it, f})
+		return true
+	})
+	return out
+}
+
+// c11IterationAt returns the innermost loop statement around pos as an iteration (nil if that loop is not one).
+func c11IterationAt(f *core.FuncInfo, pos token.Pos) *c11Iter {
+	loop := enclosingLoop(f, pos)
+	if loop == nil {
+		return nil
+	}
+	for _, it := range c11Iterations(f, func(ast.Expr) bool { return true }) {
+		if it.Stmt == loop {
+			return it
+		}
+	}
+	return nil
+}
+
+// isIndex: e is the iteration's index variable (through conversions and single-definition locals).
+func (it *c11Iter) isIndex(e ast.Expr) bool {
+	if it.Index == nil || e == nil {
+		return false
+	}
+	e = resolveLocal(it.f, e)
+	for i := 0; i < 4; i++ {
+		s := core.StripConv(it.f.Info(), e)
+		if s == e {
+			break
+		}
+		e = resolveLocal(it.f, s)
+	}
+	return varOf(it.f, e) == it.Index
+}
+
+// isElem: e denotes the element of the current iteration: the range value variable, C[i] for the
+// iteration's collection and index, or a local declared inside the loop body by its single definition
+// `v := C[i]` (declared where it is defined, so every use follows the definition in the same iteration).
+func (it *c11Iter) isElem(e ast.Expr) bool {
+	if e == nil {
+		return false
+	}
+	e = ast.Unparen(e)
+	if v := varOf(it.f, e); v != nil && v != it.Value {
+		d := singleDef(it.f, v)
+		if d == nil || it.Body == nil || !(it.Body.Pos() <= v.Pos() && v.Pos() < it.Body.End()) {
+			return false
+		}
+		declaredAtDef := false
+		for _, a := range assignsToVar(it.f, v) {
+			if a.RHS == d && a.LHS.Pos() == v.Pos() {
+				declaredAtDef = true
+			}
+		}
+		if !declaredAtDef {
+			return false
+		}
+		return it.isElem(d)
+	}
+	if ix, isIx := e.(*ast.IndexExpr); isIx {
+		if it.Coll == nil {
+			return false
+		}
+		// a local slice whose elements are stored in this function does not denote a fixed collection
+		if v := varOf(it.f, ix.X); v != nil && c11StoredThrough(it.f, v, it.Body) {
+			return false
+		}
+	}
+	return it.IsElem(e, c11Resolver(it.f))
+}
+
+// c11StoredThrough: some store-like effect inside the given block of f (or anywhere in one of f's function
+// literals) has a target reached through v (v[i] = ..., v.f = ..., *v = ..., append/copy/sort on v, &v ...),
+// or rebinds v itself.
+func c11StoredThrough(f *core.FuncInfo, v *types.Var, within *ast.BlockStmt) bool {
+	for _, g := range append([]*core.FuncInfo{f}, allLits(f)...) {
+		for _, st := range c11Stores(g) {
+			if g == f && within != nil && !(within.Pos() <= st.Pos && st.Pos < within.End()) {
+				continue
+			}
+			root, _ := c11Chain(g, st.Target)
+			if varOf(g, root) == v {
+				return true
+			}
+		}
+	}
+	return false
+}
+
+// isElemField: e is <element>.<field> (e itself may be a single-definition local holding that value).
+func (it *c11Iter) isElemField(e ast.Expr, field string) bool {
+	if e == nil {
+		return false
+	}
+	sel, ok := ast.Unparen(resolveLocal(it.f, e)).(*ast.SelectorExpr)
+	if !ok || fieldNameOf(it.f, sel) != field {
+		return false
+	}
+	return it.isElem(sel.X)
+}
+
+// everyIteration: the loop runs to completion (left only through its head, no return inside) and every
+// path through its body passes one of pts.
+func (it *c11Iter) everyIteration(pts []core.Point) bool {
+	if !it.Complete || len(pts) == 0 || !c12NoReturnInside(it.f, it.Stmt) {
+		return false
+	}
+	ok, _ := it.EveryIterationPasses(pts, false)
+	return ok
 }
 
 // c11LimitInfo is what the bound clause learns from calcCaches and hands to T15 (and to C12).
@@ -626,12 +837,32 @@ func runC11(c *core.Ctx) {
 		}
 		c.Need(len(acc) == 1 && len(wst) == 1, "one total += and one weights[i] = in calcCaches")
 		a, w := acc[0], wst[0]
-		loop, _ := enclosingLoop(calc, a.Stmt.Pos()).(*ast.RangeStmt)
-		loopW, _ := enclosingLoop(calc, w.Stmt.Pos()).(*ast.RangeStmt)
-		c.Need(loop != nil && loop == loopW, "both statements are in the same range loop")
+		// the loop may be written as a range or as a counted loop: what matters is that its index takes
+		// each value once (bound by the loop header only, stepping by one)
+		it := c11IterationAt(calc, a.Stmt.Pos())
+		c.Need(it != nil && it.Stmt == enclosingLoop(calc, w.Stmt.Pos()), "both statements are in the same loop whose index is advanced by the loop header only")
 		ix := ast.Unparen(w.LHS).(*ast.IndexExpr)
-		keyOK := loop.Key != nil && varOf(calc, loop.Key) != nil && varOf(calc, ix.Index) == varOf(calc, loop.Key) && len(assignsToVar(calc, varOf(calc, loop.Key))) == 1
-		same := w.RHS != nil && w.Tok == token.ASSIGN && c11SameExpr(calc, w.RHS, c11Addend(a, isTot))
+		keyOK := it.isIndex(ix.Index)
+		addend := c11Addend(a, isTot)
+		same := w.RHS != nil && w.Tok == token.ASSIGN &&
+			(c11SameExpr(calc, w.RHS, addend) || c11SameExpr(calc, resolveLocal(calc, w.RHS), resolveLocal(calc, addend)))
+		if !same && w.RHS != nil && w.Tok == token.ASSIGN {
+			// the same field of the element of the current iteration, however the element is spelled
+			// (range value, C[i], a local holding C[i])
+			sa, okA := ast.Unparen(resolveLocal(calc, w.RHS)).(*ast.SelectorExpr)
+			sb, okB := ast.Unparen(resolveLocal(calc, addend)).(*ast.SelectorExpr)
+			if okA && okB {
+				if fn := fieldNameOf(calc, sa); fn != "" && fn == fieldNameOf(calc, sb) {
+					same = it.isElem(sa.X) && it.isElem(sb.X)
+				}
+			}
+		}
+		if !same && w.RHS != nil && w.Tok == token.ASSIGN {
+			// total += weights[i] after weights[i] = x in the same iteration
+			if ax, ok := ast.Unparen(resolveLocal(calc, addend)).(*ast.IndexExpr); ok && c11IsPath(calc, ax.X, V, c11FWeights) && it.isIndex(ax.Index) {
+				same, _ = precedesLocally(calc, []core.Point{w.Pt}, a.Pt)
+			}
+		}
 		paired, _ := pairedWith(calc, a.Pt, []core.Point{w.Pt})
 		paired2, _ := pairedWith(calc, w.Pt, []core.Point{a.Pt})
 		c.Check(keyOK && same && paired && paired2, "total is the sum of weights[i]", "T7 Pairing", a.Stmt.Pos(),
@@ -643,8 +874,8 @@ func runC11(c *core.Ctx) {
 			r := rp.Node().(*ast.ReturnStmt)
 			okR := false
 			if len(r.Results) == 1 {
-				if ix, ok := ast.Unparen(r.Results[0]).(*ast.IndexExpr); ok {
-					okR = c11IsPath(g, ix.X, g.Recv(), c11FVCache, c11FWeights) && varOf(g, ix.Index) == g.Param(0) && g.Param(0) != nil
+				if ix, ok := ast.Unparen(resolveLocal(g, r.Results[0])).(*ast.IndexExpr); ok {
+					okR = c11IsPath(g, ix.X, g.Recv(), c11FVCache, c11FWeights) && varOf(g, ix.Index) == g.Param(0) && g.Param(0) != nil && len(assignsToVar(g, g.Param(0))) == 0
 				}
 			}
 			okG = okG && okR
@@ -694,7 +925,7 @@ func runC11(c *core.Ctx) {
 		n := c11Writers(c,
 			[]string{c11FVValues, c11FVCache, c11FIndexes, c11FWeights, c11FIDs, c11FTotal},
 			[]string{c11V, c11Cache}, c11ValidatorOwners)
-		c.ExpectAtLeast("writers of Validators/cache state", n, len(c11ValidatorOwners))
+		c.ExpectAtLeast("writers of Validators/cache state", n, c11MinValidatorWriters)
 		// newValidators: cache is assigned from calcCaches() of the object under construction
 		nv := c.Fn(c11Pkg + ".newValidators")
 		as := assignsToField(nv, c11FVCache)
@@ -796,9 +1027,9 @@ func runC11(c *core.Ctx) {
 
 		// constructor: sum starts at 0, already is a fresh all-false slice
 		ctor := c.Fn(c11Pkg + ".newWeightCounter")
-		lit := c11FindLit(ctor, c11WC)
-		c.Need(lit != nil, "newWeightCounter builds a WeightCounter literal")
-		kv := c11LitFields(ctor, lit)
+		obj := c11Constructed(ctor, c11WC)
+		c.Need(obj != nil, "newWeightCounter builds one WeightCounter whose fields are each initialised once (literal or stores through the fresh local)")
+		kv := obj.Fields
 		okSum := true
 		if e, ok := kv[c11WC+".sum"]; ok {
 			okSum = core.IsConstInt(ctor.Info(), e, 0)
@@ -807,7 +1038,7 @@ func runC11(c *core.Ctx) {
 		if e, ok := kv[c11WC+".already"]; ok {
 			okAl = isCallTo(ctor, e, "builtin.make") != nil
 		}
-		c.Check(okSum && okAl && kv != nil, "counter starts empty", "T16 initial state", lit.Pos(), "sum starts at 0 and already is a fresh make([]bool, n) (all false)",
+		c.Check(okSum && okAl, "counter starts empty", "T16 initial state", obj.Pos, "sum starts at 0 and already is a fresh make([]bool, n) (all false)",
 			"a new counter does not start with sum 0 and a fresh all-false slice: the reported quorum does not correspond to the counted validators")
 
 		// Count = CountByIdx(GetIdx(v))
@@ -840,8 +1071,8 @@ func runC11(c *core.Ctx) {
 			r := rp.Node().(*ast.ReturnStmt)
 			okR := false
 			if len(r.Results) == 1 {
-				if ix, ok := ast.Unparen(r.Results[0]).(*ast.IndexExpr); ok {
-					okR = c11IsPath(gi, ix.X, gi.Recv(), c11FVCache, c11FIndexes) && varOf(gi, ix.Index) == gi.Param(0) && gi.Param(0) != nil
+				if ix, ok := ast.Unparen(resolveLocal(gi, r.Results[0])).(*ast.IndexExpr); ok {
+					okR = c11IsPath(gi, ix.X, gi.Recv(), c11FVCache, c11FIndexes) && varOf(gi, ix.Index) == gi.Param(0) && gi.Param(0) != nil && len(assignsToVar(gi, gi.Param(0))) == 0
 				}
 			}
 			okGI = okGI && okR
@@ -855,7 +1086,10 @@ func runC11(c *core.Ctx) {
 			leak := false
 			g.InspectOwn(func(n ast.Node) bool {
 				if sel, ok := n.(*ast.SelectorExpr); ok && fieldNameOf(g, sel) == c11WC+".already" {
-					leak = true
+					// the constructor's initialising store counter.already = make(...) is not an access
+					if !(g == ctor && obj.Stores[ast.Expr(sel)]) {
+						leak = true
+					}
 				}
 				return true
 			})
@@ -921,22 +1155,25 @@ func runC11(c *core.Ctx) {
 
 		// quorum is set once, in the constructor, from Quorum() of the stored set
 		ctor := c.Fn(c11Pkg + ".newWeightCounter")
-		lit := c11FindLit(ctor, c11WC)
-		c.Need(lit != nil, "newWeightCounter builds a WeightCounter literal")
-		kv := c11LitFields(ctor, lit)
+		obj := c11Constructed(ctor, c11WC)
+		c.Need(obj != nil, "newWeightCounter builds one WeightCounter whose fields are each initialised once (literal or stores through the fresh local)")
+		kv := obj.Fields
 		okQ := false
-		if kv != nil {
-			qe, vq := kv[c11WC+".quorum"]
-			ve, vv := kv[c11WC+".validators"]
-			if vq && vv {
-				if call := isCallTo(ctor, qe, c11V+".Quorum"); call != nil {
-					if sel, ok := ast.Unparen(call.Fun).(*ast.SelectorExpr); ok {
-						okQ = varOf(ctor, sel.X) != nil && varOf(ctor, sel.X) == varOf(ctor, ve) && len(assignsToVar(ctor, varOf(ctor, ve))) == 0
+		qe, vq := kv[c11WC+".quorum"]
+		ve, vv := kv[c11WC+".validators"]
+		if vq && vv {
+			if call := isCallTo(ctor, qe, c11V+".Quorum"); call != nil {
+				if sel, ok := ast.Unparen(call.Fun).(*ast.SelectorExpr); ok {
+					// Quorum() of the variable stored as validators (never reassigned) ...
+					okQ = varOf(ctor, sel.X) != nil && varOf(ctor, sel.X) == varOf(ctor, ve) && len(assignsToVar(ctor, varOf(ctor, ve))) == 0
+					// ... or of the object's own validators field, already set by the literal
+					if !okQ && obj.Var != nil && obj.InLit[c11WC+".validators"] && !obj.InLit[c11WC+".quorum"] {
+						okQ = c11IsPath(ctor, sel.X, obj.Var, c11WC+".validators")
 					}
 				}
 			}
 		}
-		c.Check(okQ, "quorum = validators.Quorum()", "provenance", lit.Pos(), "the counter's quorum is Quorum() of the very set whose weights it counts; no other writer exists (see writers)",
+		c.Check(okQ, "quorum = validators.Quorum()", "provenance", obj.Pos, "the counter's quorum is Quorum() of the very set whose weights it counts; no other writer exists (see writers)",
 			"the counter's threshold is not Quorum() of the validator set it counts over")
 		// every *WeightCounter is made by newWeightCounter: NewCounter delegates
 		nc := c.Fn(c11V + ".NewCounter")
@@ -959,31 +1196,216 @@ func runC11(c *core.Ctx) {
 	})
 }
 
-// c11FindLit finds the (single) composite literal of the named struct type in f.
-func c11FindLit(f *core.FuncInfo, typeName string) *ast.CompositeLit {
-	var out *ast.CompositeLit
-	n := 0
-	f.InspectOwn(func(nd ast.Node) bool {
-		if lit, ok := nd.(*ast.CompositeLit); ok {
-			if tv, ok := f.Info().Types[lit]; ok && c11NamedOf(tv.Type) == typeName {
+// c11AllocOf: e (after parentheses and a leading &) is a composite literal of a struct type or new(T);
+// returns the literal (nil for new) and the canonical name of the allocated type ("" if e is neither).
+func c11AllocOf(f *core.FuncInfo, e ast.Expr) (*ast.CompositeLit, string) {
+	e = ast.Unparen(e)
+	if u, ok := e.(*ast.UnaryExpr); ok && u.Op == token.AND {
+		e = ast.Unparen(u.X)
+	}
+	switch x := e.(type) {
+	case *ast.CompositeLit:
+		if tv, ok := f.Info().Types[x]; ok {
+			if _, isStruct := tv.Type.Underlying().(*types.Struct); isStruct {
 				if _, isPtr := tv.Type.(*types.Pointer); !isPtr {
-					out = lit
-					n++
+					return x, c11NamedOf(tv.Type)
+				}
+			}
+		}
+	case *ast.CallExpr:
+		if calleeName(f, x) == "builtin.new" && len(x.Args) == 1 {
+			if tv, ok := f.Info().Types[x.Args[0]]; ok && tv.IsType() {
+				if _, isStruct := tv.Type.Underlying().(*types.Struct); isStruct {
+					return nil, c11NamedOf(tv.Type)
+				}
+			}
+		}
+	}
+	return nil, ""
+}
+
+// c11FreshLocal: v is a local of f defined once as &T{...}, T{...} or new(T) that does not escape by
+// anything other than being returned: every mention of v is its definition, a field selection or method
+// call on it (v.f, v.m()), a dereference, or a return operand. Memory reached by a direct field of such a
+// variable belongs to the object under construction, whatever the order of the statements.
+func c11FreshLocal(f *core.FuncInfo, v *types.Var) bool {
+	if v == nil || v.IsField() {
+		return false
+	}
+	d := c11SingleDef(f, v)
+	if d == nil {
+		return false
+	}
+	if _, tn := c11AllocOf(f, d); tn == "" {
+		return false
+	}
+	ok := true
+	var stack []ast.Node
+	ast.Inspect(f.Body, func(n ast.Node) bool {
+		if n == nil {
+			stack = stack[:len(stack)-1]
+			return true
+		}
+		if id, isID := n.(*ast.Ident); isID && f.Info().Uses[id] == types.Object(v) {
+			inLit := false
+			for _, s := range stack {
+				if _, isLit := s.(*ast.FuncLit); isLit {
+					inLit = true
+				}
+			}
+			var parent ast.Node
+			up := len(stack) - 1
+			for up >= 0 {
+				if _, isParen := stack[up].(*ast.ParenExpr); !isParen {
+					break
+				}
+				up--
+			}
+			if up >= 0 {
+				parent = stack[up]
+			}
+			switch p := parent.(type) {
+			case *ast.SelectorExpr:
+				if p.Sel == id {
+					ok = false
+				}
+			case *ast.StarExpr, *ast.ReturnStmt:
+			case *ast.AssignStmt:
+				isLHS := false
+				for _, l := range p.Lhs {
+					if ast.Unparen(l) == ast.Expr(id) {
+						isLHS = true
+					}
+				}
+				if !isLHS {
+					ok = false
+				}
+			default:
+				ok = false
+			}
+			if inLit {
+				ok = false
+			}
+		}
+		stack = append(stack, n)
+		return true
+	})
+	return ok
+}
+
+// c11Object is the one object of a struct type that a constructor builds.
+type c11Object struct {
+	Var    *types.Var          // the fresh local holding it (or a pointer to it); nil if the allocation is used directly
+	Fields map[string]ast.Expr // field -> initial value, from the literal and from the stores Var.field = e
+	Stores map[ast.Expr]bool   // the left-hand sides of those stores
+	InLit  map[string]bool     // fields given by the literal itself
+	Pos    token.Pos
+}
+
+// c11Constructed describes the single allocation of the named struct type in f (composite literal or
+// new), independent of whether the fields are given in the literal (keyed or positional) or stored one by
+// one through the fresh local that holds the object (x := &T{}; x.a = ...; return x). A field is
+// initialised at most once, outside loops, on every path to a return. nil when f does not have exactly
+// one such allocation or the initialisation is not of that form.
+func c11Constructed(f *core.FuncInfo, typeName string) *c11Object {
+	var allocs []ast.Expr
+	f.InspectOwn(func(n ast.Node) bool {
+		if e, ok := n.(ast.Expr); ok {
+			switch e.(type) {
+			case *ast.CompositeLit, *ast.CallExpr:
+				if _, tn := c11AllocOf(f, e); tn == typeName {
+					allocs = append(allocs, e)
 				}
 			}
 		}
 		return true
 	})
-	if n != 1 {
+	if len(allocs) != 1 {
 		return nil
 	}
-	return out
+	obj := &c11Object{Fields: map[string]ast.Expr{}, Stores: map[ast.Expr]bool{}, InLit: map[string]bool{}, Pos: allocs[0].Pos()}
+	if lit, _ := c11AllocOf(f, allocs[0]); lit != nil {
+		obj.Fields = c11LitFields(f, lit)
+		if obj.Fields == nil {
+			return nil
+		}
+		for k := range obj.Fields {
+			obj.InLit[k] = true
+		}
+	}
+	// the local holding the object
+	for _, a := range assignments(f) {
+		v := varOf(f, a.LHS)
+		if v == nil || a.RHS == nil {
+			continue
+		}
+		r := ast.Unparen(a.RHS)
+		if u, ok := r.(*ast.UnaryExpr); ok && u.Op == token.AND {
+			r = ast.Unparen(u.X)
+		}
+		if r == allocs[0] && c11FreshLocal(f, v) {
+			obj.Var = v
+		}
+	}
+	if obj.Var == nil {
+		return obj
+	}
+	for _, a := range assignments(f) {
+		sel, ok := ast.Unparen(a.LHS).(*ast.SelectorExpr)
+		if !ok || varOf(f, sel.X) != obj.Var {
+			continue
+		}
+		fld := ""
+		if s, ok := f.Info().Selections[sel]; ok {
+			if fv, ok := s.Obj().(*types.Var); ok && fv.IsField() {
+				fld = f.P.FieldName(fv)
+			}
+		}
+		if fld == "" || !strings.HasPrefix(fld, typeName+".") {
+			return nil
+		}
+		if _, dup := obj.Fields[fld]; dup || a.Tok != token.ASSIGN || a.RHS == nil || enclosingLoop(f, a.Stmt.Pos()) != nil {
+			return nil
+		}
+		for _, rp := range f.ReturnPoints() {
+			if ok, _ := f.MustPassBefore([]core.Point{a.Pt}, rp); !ok {
+				return nil
+			}
+		}
+		obj.Fields[fld] = a.RHS
+		obj.Stores[ast.Expr(sel)] = true
+	}
+	return obj
 }
 
-// c11LitFields maps canonical field names to the value expressions of a keyed struct literal
-// (nil for unkeyed literals with elements).
+// c11LitFields maps canonical field names to the value expressions of a struct literal, keyed or
+// positional (nil for forms it cannot read).
 func c11LitFields(f *core.FuncInfo, lit *ast.CompositeLit) map[string]ast.Expr {
 	out := map[string]ast.Expr{}
+	// positional form T{a, b}: the i-th element initialises the i-th field
+	if len(lit.Elts) > 0 {
+		if _, keyed := lit.Elts[0].(*ast.KeyValueExpr); !keyed {
+			tv, ok := f.Info().Types[lit]
+			if !ok {
+				return nil
+			}
+			st, ok := tv.Type.Underlying().(*types.Struct)
+			if !ok || st.NumFields() != len(lit.Elts) {
+				return nil
+			}
+			for i, el := range lit.Elts {
+				if _, keyed := el.(*ast.KeyValueExpr); keyed {
+					return nil
+				}
+				name := f.P.FieldName(st.Field(i))
+				if name == "" {
+					return nil
+				}
+				out[name] = el
+			}
+			return out
+		}
+	}
 	for _, el := range lit.Elts {
 		kv, ok := el.(*ast.KeyValueExpr)
 		if !ok {
@@ -1076,7 +1498,18 @@ func c11CheckWrap(c *core.Ctx, calc *core.FuncInfo, V *types.Var, w assignment, 
 // c11QuorumShape decides whether e is ((T*2)/3)+1 (operands of + and * in either order).
 func c11QuorumShape(f *core.FuncInfo, sizes types.Sizes, e ast.Expr, isTotal func(ast.Expr) bool, wsize int64) (bool, ast.Expr, string) {
 	info := f.Info()
-	strip := func(x ast.Expr) ast.Expr { return c11StripWide(f, sizes, x, wsize) }
+	// intermediate results may be held in single-definition locals (q := T*2/3; return q+1): the value is
+	// the same expression, evaluated in the same type
+	strip := func(x ast.Expr) ast.Expr {
+		for i := 0; i < 6; i++ {
+			y := ast.Unparen(resolveLocal(f, c11StripWide(f, sizes, x, wsize)))
+			if y == x {
+				break
+			}
+			x = y
+		}
+		return x
+	}
 	add, ok := strip(e).(*ast.BinaryExpr)
 	if !ok || add.Op != token.ADD {
 		return false, nil, "the result is not of the form X + 1"
@@ -1127,6 +1560,10 @@ func c11QuorumCounterexample(f *core.FuncInfo, sizes types.Sizes, e ast.Expr, is
 			return T, true
 		}
 		switch y := x.(type) {
+		case *ast.Ident:
+			if d := ast.Unparen(resolveLocal(f, y)); d != ast.Expr(y) {
+				return eval(d, T)
+			}
 		case *ast.CallExpr:
 			if tv, ok := f.Info().Types[y.Fun]; ok && tv.IsType() && len(y.Args) == 1 {
 				return eval(y.Args[0], T)
